@@ -67,8 +67,8 @@ inductive Err where
   | fuel                           -- artefact of the model: loop fuel exhausted (proved unreachable)
 deriving DecidableEq, Repr
 
-/-- `flags & ~c` -/
-def clearFlag (flags c : Nat) : Nat := flags - (flags &&& c)
+/-- `flags & ~c` on a `sqfs_u32` -/
+def clearFlag (flags c : Nat) : Nat := flags &&& (0xFFFFFFFF ^^^ c)
 
 def allZero (d : Bytes) : Bool := d.all (· == 0)
 
